@@ -173,7 +173,12 @@ func (x *XmlNode) Find(start int, m meta.Definition) int {
 	for i := start; i < len(x.Nodes); i++ {
 		if x.Nodes[i].XMLName.Local == m.Ident() {
 			if x.Nodes[i].XMLName.Space != "" {
-				ns := meta.NamespaceModule(m).Namespace()
+				mod := meta.NamespaceModule(m)
+				ns := mod.Namespace()
+				if ns == "" {
+					// the writer lets the name of a module that states no namespace stand in for one
+					ns = mod.Ident()
+				}
 				if x.Nodes[i].XMLName.Space != ns {
 					continue
 				}
